@@ -128,7 +128,7 @@ func c08Inputs(docs []vDoc, n int) [][]byte {
 
 func c08Chunks(c *vrep.Ctx) {
 	cl, docs := c08Classifier()
-	inputs := c08Inputs(docs, c.Pick(3, 10))
+	inputs := c08Inputs(docs, c.ParamInt("inputs", c.Pick(3, 10)))
 	chunks := []int{0, 1, 2, 3, 4, 5, 6, 7, 8, 9, 1019, 1020, 1021, 1022, 1023, 1024, 1025, 4096}
 	budget := c.ParamInt("deviations", c.Pick(2, 3))
 	c.R.Rule = fmt.Sprintf("reader answers as choice points: %d inputs (multi-byte runes, invalid UTF-8, entities) x default chunk sizes %v x {EOF alone, EOF with the last data} x up to %d deviating Read answers (0 bytes with nil error, or a short read of 1..5 bytes) at any Read call; MatchFrom must equal Match on the same bytes; non-trivial = distinct (input, policy, deviation list) executions whose result has a match", len(inputs), chunks, budget)
